@@ -163,6 +163,20 @@ var c12Specs = []c12Spec{
 		c.Add(d)
 		return &c12World{c: c, muts: []func(){func() { c.Remove(b) }, func() { c.Remove(d) }}, reqs: []h.Req{get("a", "x")}}
 	}},
+	{name: "removes-beside-a-plain-handler", untouched: []int{0, 1}, servers: [][]int{{0, 1}}, mutators: [][]int{{0, 1}}, world: func(jsr bool) *c12World {
+		// a plain handler registered with Handle has to survive every rebuild of the mux
+		c := c12Container(jsr)
+		c.Handle("/static/", http.HandlerFunc(func(w http.ResponseWriter, r *http.Request) {
+			w.Header().Set("X-Route", "static")
+			io.WriteString(w, "static")
+		}))
+		c.Add(newWS("/a", true, "/x"))
+		b := newWS("/b", true, "/x")
+		d := newWS("/d", true, "/x")
+		c.Add(b)
+		c.Add(d)
+		return &c12World{c: c, muts: []func(){func() { c.Remove(b) }, func() { c.Remove(d) }}, reqs: []h.Req{get("a", "x"), get("static", "f")}}
+	}},
 	{name: "two-adds", servers: [][]int{{0, 1}}, mutators: [][]int{{0}, {1}}, world: func(jsr bool) *c12World {
 		c := c12Container(jsr)
 		c.Add(newWS("/a", true, "/x"))
